@@ -307,8 +307,10 @@ def handle (op : String) (a : Proto.Args) : String :=
   | "probe" =>
     let o := probe (a.nat "size") (a.nat "magic") (a.nat "version") (a.nat "devid")
     match o.res with
-    | .error e => s!"{traceStr o.trace} => err {e.str}"
-    | .ok p => s!"{traceStr o.trace} => ok version={if p.version.isLegacy then 1 else 2} type={p.deviceType} cfglen={p.configLen}"
+    -- only the verdict is compared: which header registers are read, and in which order, is not fixed
+    -- by the property (the harness checks "writes nothing, reads only defined registers" directly)
+    | .error e => s!"=> err {e.str}"
+    | .ok p => s!"=> ok version={if p.version.isLegacy then 1 else 2} type={p.deviceType} cfglen={p.configLen}"
   | "begin_init" => (beginInit v (a.nat "supported") rs).str
   | "read_features" => (run v .readFeatures rs).str
   | "write_features" => (run v (.writeFeatures (a.nat "f")) rs).str
@@ -317,7 +319,15 @@ def handle (op : String) (a : Proto.Args) : String :=
   | "get_status" => (run v .getStatus rs).str
   | "set_status" => (run v (.setStatus (a.nat "s")) rs).str
   | "set_guest_page_size" => (run v (.setGuestPageSize (a.nat "p")) rs).str
-  | "queue_set" => (run v (.queueSet q (a.nat "size") (a.nat "desc") (a.nat "drv") (a.nat "dev")) rs).str
+  | "queue_set" =>
+    let o := run v (.queueSet q (a.nat "size") (a.nat "desc") (a.nat "drv") (a.nat "dev")) rs
+    -- modern interface: the parameter writes between QueueSel and QueueReady are printed as an unordered
+    -- group (the comparison sorts inside `{ … }`)
+    if !v.isLegacy && o.trace.length ≥ 3 then
+      let strs := o.trace.map Access.str
+      let ts := Proto.joinWith " " ([strs.headD ""] ++ ["{"] ++ (strs.drop 1).take (strs.length - 2) ++ ["}"] ++ [strs.getLastD ""])
+      s!"{ts} => {o.res.str}"
+    else o.str
   | "queue_unset" => (run v (.queueUnset q) rs).str
   | "queue_used" => (run v (.queueUsed q) rs).str
   | "ack_interrupt" => (run v .ackInterrupt rs).str
